@@ -182,6 +182,21 @@ impl C16 {
 				let injected = self.injected_locked.contains(&(w, o.key_id.to_hex()));
 				if !live && !injected {
 					let sig = if start.is_some() && del {
+						// known finding; the output stays locked from here on (derived
+						// damage is not reported again)
+						for o2 in &snap.outputs {
+							if o2.status == OutputStatus::Locked {
+								let live2 = snap.txs.iter().any(|t| {
+									Some(t.id) == o2.tx_log_entry
+										&& t.parent_key_id == o2.root_key_id
+										&& t.tx_type == grin_wallet_libwallet::TxLogEntryType::TxSent
+										&& !t.confirmed
+								});
+								if !live2 {
+									self.injected_locked.insert((w, o2.key_id.to_hex()));
+								}
+							}
+						}
 						"locked_output_of_cancelled_entry_after_partial_scan"
 					} else {
 						"locked_output_without_live_entry_after_scan"
@@ -438,9 +453,21 @@ impl Prop for C16 {
 						if *prev != proj {
 							let added: Vec<&String> = proj.iter().filter(|x| !prev.contains(x)).collect();
 							let removed: Vec<&String> = prev.iter().filter(|x| !proj.contains(x)).collect();
+							// only the recorded height of repaired outputs moved?
+							let strip = |l: &String| -> String {
+								let f: Vec<&str> = l.split('|').collect();
+								if f.len() == 9 {
+									format!("{}|{}|{}|{}|{}|{}|{}", f[0], f[1], f[2], f[3], f[4], f[7], f[8])
+								} else {
+									l.clone()
+								}
+							};
+							let a2: Vec<String> = added.iter().map(|l| strip(l)).collect();
+							let r2: Vec<String> = removed.iter().map(|l| strip(l)).collect();
+							let height_only = !a2.is_empty() && a2.len() == r2.len() && a2.iter().all(|x| r2.contains(x));
 							v.push(run.viol(
 								"idempotent",
-								"second_scan_changed_state",
+								if height_only { "second_scan_changed_state:height_only" } else { "second_scan_changed_state" },
 								format!("wallet {}: a second scan changed the wallet: +{:?} -{:?}", w, added, removed),
 							));
 							return v;
